@@ -565,20 +565,43 @@ def _scat_bwd(S, item):
         res['diff'] = 1
         res['findings'].append(exc_finding(S, o, construct, disc0 + ':forward'))
         return res
+    if not isinstance(rec.args[0], DataT):
+        raise AnalysisError('scat', 'the layer does not pass a tensor to %s for size %dx%d' % (fn, H, W))
+    if rec.args[0].base_of is not bx:
+        # the layer hands the Function a (linearly) prepared copy of its input, e.g. an odd size extended by one
+        # row/column with ordinary differentiable torch calls: autograd differentiates that part; the Function is
+        # re-run on a fresh symbolic input of the shape it was given, with the call site's other arguments
+        a0 = rec.args[0]
+        if getattr(a0, 'nl', False):
+            raise AnalysisError('scat', 'the layer passes a non-linear function of its input to %s' % fn)
+        bx, x = base_tensor_dims('x', a0.dims, requires_grad=True)
+        bx.side = 'x'
+        S.libs.apply_log = []
+        del nonlin.REBASE_LOG[:]
+        nonlin.REBASED.clear()
+        o = S.run(S.interp.getattr(rec.cls, 'apply'), x, *rec.args[1:])
+        if o.kind != 'ok':
+            res['diff'] = 1
+            res['findings'].append(exc_finding(S, o, construct, disc0 + ':forward'))
+            return res
+        rec = S.libs.apply_log[-1]
     Z = rec.out
-    if not isinstance(rec.args[0], DataT) or rec.args[0].base_of is not bx:
-        raise AnalysisError('scat', 'the layer does not pass its input unchanged to %s for size %dx%d' % (fn, H, W))
     bg, g = base_tensor_dims('dZ', [d if d[0] == 'E' else d for d in Z.dims])
     bg.side = 'g'
     from ..pyinterp import StaticMethod
     bwd = rec.cls.lookup('backward')
     bwd = bwd.func if isinstance(bwd, StaticMethod) else bwd
+    from .dwtlib import ctx_versions, ctx_mutations
+    saved0 = ctx_versions(rec.ctx)
     S.interp.nograd += 1
     try:
         o2 = S.run(bwd, rec.ctx, g)
     finally:
         S.interp.nograd = 0
     problems = []
+    for m_ in ctx_mutations(saved0):
+        problems.append(('saved-state-mutated', 'backward overwrites %s: a repeated backward through the same graph '
+                         '(retain_graph, one grad call per output, jacobian) no longer computes the gradient' % m_))
     anchor_b = anchor(S, SL, fn, 'backward')
     if o2.kind != 'ok':
         e = o2.exc
